@@ -1283,7 +1283,11 @@ class HexAssembly(Assembly):
         ValueError
             If rotation is not divisible by pi / 3.
         """
-        if math.isclose(rad % (math.pi / 3), 0, abs_tol=1e-12):
+        remainder = rad % (math.pi / 3)
+        # the floating point remainder of a multiple of 60 degrees is close to 0 or close to 60 degrees
+        if math.isclose(remainder, 0, abs_tol=1e-12) or math.isclose(
+            remainder, math.pi / 3, abs_tol=1e-12
+        ):
             return super().rotate(rad)
 
         msg = (
